@@ -300,7 +300,7 @@ esl_msafile_clustal_Read(ESL_MSAFILE *afp, ESL_MSA **ret_msa)
   return eslOK;
 
  ERROR:
-  if (msa) esl_msa_Destroy(msa);
+  if (msa) { msa->nseq = msa->sqalloc; esl_msa_Destroy(msa); } /* rows are stored before <nseq> is set; per-seq arrays are NULL-initialized for <sqalloc> */
   *ret_msa = NULL;
   return status;
 }  
